@@ -75,6 +75,15 @@ class Stats:
     def count(self, name, n=1):
         self.classes[name] += n
 
+    def collect(self, violation, case):
+        """Collect mode: remember a violation (smallest case per root-cause key) and keep searching."""
+        if not hasattr(self, "collected"):
+            self.collected = {}
+        size = len(jsonx.dumps(case))
+        cur = self.collected.get(violation.key)
+        if cur is None or size < cur[0]:
+            self.collected[violation.key] = (size, violation.message, case)
+
     def discard(self, why):
         self.discards[why] += 1
 
@@ -245,6 +254,13 @@ def _worker(task):
             out["violation"] = dict(key=v.key, message=v.message, case=jsonx.enc(v.case))
     except BaseException:
         out["error"] = traceback.format_exc()
+    collected = []
+    for key, (size, msg, case) in getattr(stats, "collected", {}).items():
+        if key in rec.known_keys:
+            stats.known[key] += 1
+        else:
+            collected.append(dict(key=key, message=msg, case=jsonx.enc(case)))
+    out["collected"] = collected
     out.update(
         evaluations=stats.evaluations,
         nt=stats.nt,
@@ -263,14 +279,17 @@ def replay_case(mod, subname, case):
     sub = next((s for s in mod.SUBS if s.name == subname), None)
     if sub is None:
         raise HarnessError(f"unknown sub-check {subname!r} in {mod.PROPERTY}")
+    st = Stats()
     try:
-        sub.execute(case, Stats())
+        sub.execute(case, st)
     except Discard:
         return None
     except Violation as v:
         if v.case is None:
             v.case = case
         return v
+    for key, (_size, msg, ccase) in getattr(st, "collected", {}).items():
+        return Violation(key, msg, ccase)  # collect-mode sub-check: the first collected violation
     return None
 
 
@@ -392,6 +411,8 @@ def run_property(prop: str, tier: str, seed: int, only=None, nproc=NPROC) -> int
                 samples.append({"sub": r["sub"], "case": s})
         if r["violation"]:
             violations.append((r["sub"], r["violation"], None))
+        for vio in r.get("collected", []):
+            violations.append((r["sub"], vio, None))
     for ps in per_sub.values():
         ps["distinct_nontrivial"] = len(ps["distinct_nontrivial"])
 
